@@ -56,6 +56,7 @@ static int        closed_at[2]; // NEV when nng_socket_close returned, -1 open
 static int        reject_left[2]; // ADD_PRE callbacks that still reject
 static int        close_in_post[2]; // ADD_POST callbacks that still close the pipe
 static int        n_rejected[2];
+static int        cb_close_at; // close every pipe seen so far inside the n-th callback
 static struct {
 	int id, live, maxlive;
 } DL[8];
@@ -187,6 +188,18 @@ notify(nng_pipe p, nng_pipe_ev ev, void *arg)
 		close_in_post[si]--;
 		nng_pipe_close(p);
 	}
+	if (cb_close_at > 0 && NEV == cb_close_at) {
+		// (closing the pipe whose ADD_PRE is being delivered is a rejection)
+		if (ev == NNG_PIPE_EV_ADD_PRE) {
+			pi->rejected = 1;
+			n_rejected[si]++;
+		}
+		for (int i = 0; i < NPI; i++) {
+			nng_pipe q = NNG_PIPE_INITIALIZER;
+			q.id       = PI[i].id;
+			nng_pipe_close(q);
+		}
+	}
 }
 
 static void
@@ -194,6 +207,7 @@ ledger_reset(void)
 {
 	NEV = NPI = NDL = 0;
 	seen_mask       = 0;
+	cb_close_at     = 0;
 	for (int i = 0; i < 2; i++) {
 		closed_at[i]     = -1;
 		reject_left[i]   = 0;
@@ -346,20 +360,27 @@ enum {
 	OP_LISTENER_CLOSE,
 	OP_REJECT_A_CLOSE_B, // A rejects in ADD_PRE while B is being closed
 	OP_POSTCLOSE_B_CLOSE_A, // B closes its pipe inside ADD_POST while A is closed
+	OP_CB_CLOSE2, // every pipe seen so far is closed inside the 2nd callback,
+	OP_CB_CLOSE3, // ... the 3rd,
+	OP_CB_CLOSE4, // ... the 4th; the other thread closes all pipes it can see
+	OP_TWO_DIALERS, // B already has a connected dialer; a second one is started
+	                // while the other thread closes every pipe it can see
 	OP_N
 };
 static const char *OPN[] = { "closeA", "closeB", "pipeclose", "dialerclose",
-	"listenerclose", "rejectA-closeB", "postcloseB-closeA" };
+	"listenerclose", "rejectA-closeB", "postcloseB-closeA", "cbclose2", "cbclose3",
+	"cbclose4", "twodialers" };
 static const char *PRN[] = { "pair0", "pushpull", "reqrep" };
 
 typedef struct s1arg {
 	int proto, op;
+	int ipc; // nng <-> nng over ipc:// instead of inproc://
 } s1arg;
 static nng_dialer   s1_d;
 static nng_listener s1_l;
 static int          s1_dialrv;
 static int          s1_use_dialer;
-#define S1_URL "inproc://c14"
+static char         S1_URL[200];
 
 static void *
 s1_dial(void *a)
@@ -392,6 +413,16 @@ s1_other(void *a)
 			nng_pipe_close(p);
 		}
 		break;
+	case OP_CB_CLOSE2:
+	case OP_CB_CLOSE3:
+	case OP_CB_CLOSE4:
+	case OP_TWO_DIALERS:
+		for (int i = 0; i < NPI; i++) {
+			nng_pipe p = NNG_PIPE_INITIALIZER;
+			p.id       = PI[i].id;
+			nng_pipe_close(p);
+		}
+		break;
 	case OP_DIALER_CLOSE:
 		nng_dialer_close(s1_d);
 		break;
@@ -411,6 +442,11 @@ run_s1(void *arg)
 
 	vh_init(0);
 	ledger_reset();
+	if (x->ipc)
+		snprintf(S1_URL, sizeof(S1_URL), "ipc://%s/c14s1-%d", vx_rundir(),
+		    (int) getpid());
+	else
+		snprintf(S1_URL, sizeof(S1_URL), "inproc://c14");
 	open_pair(x->proto, &a, &b);
 	watch(0, a);
 	watch(1, b);
@@ -428,6 +464,12 @@ run_s1(void *arg)
 		reject_left[0] = 1;
 	if (x->op == OP_POSTCLOSE_B_CLOSE_A)
 		close_in_post[1] = 1;
+	if (x->op >= OP_CB_CLOSE2 && x->op <= OP_CB_CLOSE4)
+		cb_close_at = 2 + (x->op - OP_CB_CLOSE2);
+	if (x->op == OP_TWO_DIALERS) {
+		VH_OK(nng_dial(b, S1_URL, NULL, NNG_FLAG_NONBLOCK));
+		vs_settle();
+	}
 	vs_settle();
 
 	vs_window(1);
@@ -448,8 +490,11 @@ run_s1(void *arg)
 	ledger_summary(0, ha, sizeof(ha));
 	ledger_summary(1, hb, sizeof(hb));
 	vs_outcome("A[%s] B[%s] dial=%d", ha, hb, s1_dialrv);
-	vs_log("%s/%s events=%d (at join %d) A[%s] B[%s] dial=%s", PRN[x->proto],
-	    OPN[x->op], NEV, nev_join, ha, hb, nng_strerror(s1_dialrv));
+	vs_log("%s/%s%s events=%d (at join %d) A[%s] B[%s] dial=%s", PRN[x->proto],
+	    OPN[x->op], x->ipc ? "/ipc" : "", NEV, nev_join, ha, hb,
+	    nng_strerror(s1_dialrv));
+	if (x->ipc)
+		unlink(S1_URL + 6);
 	vh_fini();
 }
 
@@ -479,9 +524,14 @@ run_s2(void *arg)
 
 	int  sent = 0, got = 0, eagain = 0;
 	char tag[16], last[32] = "";
+	// first message right after the dial returns (pipe still up from the
+	// dialer's point of view) or after the rejection has propagated
+	int late = vs_choose(VK_ENV, 2);
 	// the first connection and the first message race with the rejection
 	vs_window(1);
 	int drv = nng_dial(b, url, NULL, 0);
+	if (late)
+		vs_settle();
 	snprintf(tag, sizeof(tag), "m%d", sent);
 	if (vh_send_nb(b, tag, strlen(tag) + 1) == 0)
 		sent++;
@@ -1085,40 +1135,68 @@ main(int argc, char **argv)
 	for (int i = 0; i < 3; i++)
 		explore(s4n[i], run_s4, &s4[i], 0, 0, 0, 0);
 
-	// Budgets.  Full = preempt 1 (quick) / 2 (thorough), switch 2, timer 1,
-	// at most 2 deviations per execution; the connect path over inproc has
-	// ~100-200 choice points per execution, so a third deviation level is
-	// out of reach (>= 500 k executions per scenario).  "Lite" = one deviation.
-	int p = T ? 2 : 1, sw = 2, t = 1, tot = 2;
-	static s2arg s2[] = { { 0, 1 }, { 1, 1 }, { 0, 2 }, { 1, 2 } };
+	// Budget classes.  The connect path over inproc has 100-200 choice points
+	// per execution, so a third deviation level is out of reach (> 500 k
+	// executions per scenario); everything is bounded by two deviations:
+	//   1 "lite"  one deviation (preempt | switch | timer)
+	//   2 "p1"    two deviations, at most one of them a preemption
+	//   3 "p2"    two deviations, both may be preemptions
+	static const int BP[4] = { 0, 1, 1, 2 }, BT[4] = { 0, 1, 2, 2 };
+	static s2arg s2[]  = { { 0, 1 }, { 1, 1 }, { 0, 2 }, { 1, 2 } };
+	static const int s2q[] = { 2, 1, 1, 1 }, s2t[] = { 3, 2, 2, 2 };
 	for (int i = 0; i < 4; i++) {
-		int lite = !T && i >= 2;
+		int c = T ? s2t[i] : s2q[i];
 		snprintf(name, sizeof(name), "S2-reject-%s-k%d", PRN[s2[i].proto],
 		    s2[i].k);
 		if (vx_time_left() < 30)
 			break;
-		explore(name, run_s2, &s2[i], p, sw, t, lite ? 1 : tot);
+		explore(name, run_s2, &s2[i], BP[c], 2, 1, BT[c]);
 	}
-	static s1arg s1[3 * OP_N];
-	int          n1 = 0;
-	// all operations for pair0 first, then the other protocol pairs
+	// S1: class per operation for pair0 {quick, thorough} and for the other
+	// protocol pairs {quick, thorough}
+	static const int cls[OP_N][4] = {
+		[OP_CLOSE_A]             = { 1, 3, 1, 2 },
+		[OP_CLOSE_B]             = { 1, 3, 1, 2 },
+		[OP_PIPE_CLOSE]          = { 2, 3, 1, 2 },
+		[OP_DIALER_CLOSE]        = { 1, 3, 1, 2 },
+		[OP_LISTENER_CLOSE]      = { 1, 3, 1, 2 },
+		[OP_REJECT_A_CLOSE_B]    = { 1, 2, 1, 1 },
+		[OP_POSTCLOSE_B_CLOSE_A] = { 1, 2, 1, 1 },
+		[OP_CB_CLOSE2]           = { 1, 3, 1, 1 },
+		[OP_CB_CLOSE3]           = { 2, 3, 1, 2 },
+		[OP_CB_CLOSE4]           = { 1, 3, 1, 1 },
+		[OP_TWO_DIALERS]         = { 1, 2, 1, 2 },
+	};
+	static s1arg s1[3 * OP_N + 8];
+	int          n1 = 0, skipped = 0;
 	for (int pr = 0; pr < 3; pr++)
 		for (int op = 0; op < OP_N; op++)
-			s1[n1++] = (s1arg){ pr, op };
+			s1[n1++] = (s1arg){ pr, op, 0 };
+	// the same race over a real stream transport (nng <-> nng over ipc://)
+	static const int ipcops[] = { OP_CLOSE_A, OP_CLOSE_B, OP_PIPE_CLOSE,
+		OP_CB_CLOSE3 };
+	for (int k = 0; k < 4; k++)
+		s1[n1++] = (s1arg){ 0, ipcops[k], 1 };
 	for (int i = 0; i < n1; i++) {
-		// quick: the five basic operations on pair0 get the full budget,
-		// everything else one deviation
-		int lite = !T && (s1[i].proto != 0 || s1[i].op > OP_LISTENER_CLOSE);
-		snprintf(name, sizeof(name), "S1-%s-%s", PRN[s1[i].proto], OPN[s1[i].op]);
-		if (vx_time_left() < (T ? 120 : 20))
-			break;
-		explore(name, run_s1, &s1[i], p, sw, t, lite ? 1 : tot);
+		int c = cls[s1[i].op][(s1[i].proto ? 2 : 0) + (T ? 1 : 0)];
+		if (s1[i].ipc) // ~330 choice points per execution
+			c = (T && (s1[i].op == OP_PIPE_CLOSE || s1[i].op == OP_CB_CLOSE3))
+			    ? 2
+			    : 1;
+		snprintf(name, sizeof(name), "S1-%s%s-%s", s1[i].ipc ? "ipc-" : "",
+		    PRN[s1[i].proto], OPN[s1[i].op]);
+		if (vx_time_left() < (T ? 150 : 15)) {
+			skipped++;
+			continue;
+		}
+		explore(name, run_s1, &s1[i], BP[c], 2, 1, BT[c]);
 	}
 	vx_note("bounds",
-	    "S1/S2 budgets preempt=%d switch=%d timer=%d total=%d; S1 = 3 protocol "
-	    "pairs x %d racing operations; S2 k=1,2 x pair0,push/pull; S3 %d "
-	    "(min,max) configs x 3/4 seeds x 4^3 (4^4 thorough) loss modes x 3 end modes; S4 3 "
+	    "budget classes lite/p1/p2 = (preempt,total) (1,1)/(1,2)/(2,2), switch 2, "
+	    "timer 1; S1 = 3 protocol pairs x %d racing operations over inproc + 4 "
+	    "over ipc (%d skipped for time); S2 k=1,2 x pair0,push/pull x send-timing; S3 %d (min,max) "
+	    "configs x 3/4 seeds x 4^3 (4^4 thorough) loss modes x 3 end modes; S4 3 "
 	    "protocols x 7 x 8 failure modes x overlap",
-	    p, sw, t, tot, OP_N, ns3);
+	    OP_N, skipped, ns3);
 	return vx_finish();
 }
